@@ -154,7 +154,7 @@ def r3b_empty_tables(rep, facts):
                                stubs={'is_empty': empty, 'len': 0 if empty else 1, 'get_values': kids, 'decor_mut': ('opaque',)})
                 env = {pn[0]: ('opaque',), pn[1]: ('struct', 'toml_edit::table::Table', {}), '@assign': {}}
                 try:
-                    it.val(b['body'], env)
+                    it.run_body(b, env)
                 except EvalPanic:
                     pass
                 res[empty] = [a[0] for nm, a in it.calls if nm == 'set_implicit' and a]
